@@ -406,6 +406,7 @@ impl<'tcx> Dumper<'tcx> {
                 v.push(("promoted_of", s(self.upath(uv.def))));
             } else {
                 v.push(("unevaluated", s(self.ppath(uv.def))));
+                v.push(("unevaluated_path", s(self.upath(uv.def))));
             }
         }
         let env = ty::TypingEnv::post_analysis(tcx, owner);
@@ -670,9 +671,12 @@ impl<'tcx> Dumper<'tcx> {
             let did = ldid.to_def_id();
             let kind = tcx.def_kind(did);
             let kind_s = format!("{:?}", kind);
+            let is_const = matches!(kind, DefKind::Const { .. } | DefKind::AssocConst { .. });
             let has_mir = match kind {
                 DefKind::Fn | DefKind::AssocFn | DefKind::Closure => true,
-                DefKind::Const { .. } | DefKind::AssocConst { .. } | DefKind::Static { .. } => false,
+                // named constants of non-generic items: their initialiser is dumped so that ADT-typed constants
+                // (e.g. a `Duration`) can be folded by the analyses instead of being read as raw bytes
+                DefKind::Const { .. } | DefKind::AssocConst { .. } => tcx.generics_of(did).count() == 0,
                 _ => false,
             };
             if !has_mir {
@@ -721,6 +725,14 @@ impl<'tcx> Dumper<'tcx> {
                     }
                 }
                 v.push(("type_params", Json::Arr(names)));
+            }
+            if is_const {
+                let body = tcx.mir_for_ctfe(did);
+                v.push(("body", self.body_json(body, did)));
+                v.push(("promoted", Json::Arr(vec![])));
+                v.push(("type_params", Json::Arr(vec![])));
+                fns.push(obj(v));
+                continue;
             }
             let body = tcx.optimized_mir(did);
             v.push(("body", self.body_json(body, did)));
